@@ -77,31 +77,31 @@ def tiers(tier):
     one = ["vg", "cov", "covnc", "covg", "mado", "rodo", "poisson", "order4"]
     return [
         dict(name="val1", dims=[3, 3], minn=2, maxn=5, vals=[0, 1, 2], na=True, nvar=1, sel=False, weights=[1],
-             dirset="t2", modes=one, mod=20, dpc=3),
+             dirset="t2", modes=one, mod=40, dpc=3),
         dict(name="het2", dims=[3, 3], minn=2, maxn=4, vals=[0, 1], na=True, nvar=2, sel=False, weights=[1],
-             dirset="t2", modes=ALLMODES, mod=100, dpc=3),
+             dirset="t2", modes=ALLMODES, mod=250, dpc=3),
         dict(name="val2", dims=[3, 3], minn=2, maxn=3, vals=[0, 1, 2], na=True, nvar=2, sel=False, weights=[1],
-             dirset="t2", modes=ALLMODES, mod=60, dpc=3),
+             dirset="t2", modes=ALLMODES, mod=150, dpc=3),
         dict(name="selw", dims=[3, 3], minn=2, maxn=4, vals=[0, 2], na=False, nvar=1, sel=True, weights=[1, 2],
-             dirset="t2", modes=["vg", "cov", "covnc", "covg", "mado", "order4"], mod=100, dpc=3),
+             dirset="t2", modes=["vg", "cov", "covnc", "covg", "mado", "order4"], mod=150, dpc=3),
         dict(name="hetw2", dims=[3, 3], minn=2, maxn=3, vals=[0, 2], na=True, nvar=2, sel=False, weights=[1, 3],
-             dirset="t2", modes=["vg", "cov", "covnc", "covg", "trans1", "binormal", "rodo"], mod=120, dpc=3),
+             dirset="t2", modes=["vg", "cov", "covnc", "covg", "trans1", "binormal", "rodo"], mod=200, dpc=3),
         dict(name="hets2", dims=[3, 3], minn=2, maxn=3, vals=[0, 2], na=True, nvar=2, sel=True, weights=[1],
-             dirset="t2", modes=["vg", "cov", "covnc", "covg", "trans2", "mado", "order4"], mod=120, dpc=3),
+             dirset="t2", modes=["vg", "cov", "covnc", "covg", "trans2", "mado", "order4"], mod=200, dpc=3),
         dict(name="dup", dims=[3, 3], minn=2, maxn=4, vals=[0, 1], na=True, nvar=1, sel=False, weights=[1], dup=True,
-             dirset="t2", modes=["vg", "cov", "covnc", "mado"], mod=10, dpc=3),
+             dirset="t2", modes=["vg", "cov", "covnc", "mado"], mod=15, dpc=3),
         dict(name="big4", dims=[4, 4], minn=2, maxn=3, vals=[0, 1, 2], na=True, nvar=1, sel=False, weights=[1],
-             dirset="t2", modes=["vg", "cov", "covnc", "rodo", "poisson"], mod=10, dpc=3),
+             dirset="t2", modes=["vg", "cov", "covnc", "rodo", "poisson"], mod=15, dpc=3),
         dict(name="line", dims=[5], minn=2, maxn=5, vals=[0, 1, 3], na=False, nvar=1, sel=True, weights=[1, 2],
-             dirset="l1", modes=["vg", "cov", "covnc", "covg", "rodo", "order4"], mod=100, dpc=3),
+             dirset="l1", modes=["vg", "cov", "covnc", "covg", "rodo", "order4"], mod=150, dpc=3),
         dict(name="linena", dims=[5], minn=2, maxn=5, vals=[0, 1, 3], na=True, nvar=1, sel=False, weights=[1],
-             dirset="l1", modes=one, mod=1, dpc=3),
+             dirset="l1", modes=one, mod=1, dpc=2),
         dict(name="line2", dims=[5], minn=2, maxn=5, vals=[0, 1], na=True, nvar=2, sel=False, weights=[1],
-             dirset="l1", modes=ALLMODES, mod=30, dpc=3),
+             dirset="l1", modes=ALLMODES, mod=50, dpc=3),
         dict(name="cube", dims=[2, 2, 2], minn=2, maxn=5, vals=[0, 1, 2], na=True, nvar=1, sel=False, weights=[1],
-             dirset="c3", modes=["vg", "cov", "covnc", "covg", "mado", "poisson"], mod=20, dpc=3),
+             dirset="c3", modes=["vg", "cov", "covnc", "covg", "mado", "poisson"], mod=30, dpc=3),
         dict(name="cube2", dims=[2, 2, 2], minn=2, maxn=3, vals=[0, 1], na=True, nvar=2, sel=True, weights=[1],
-             dirset="c3", modes=["vg", "cov", "covnc", "trans2"], mod=100, dpc=3),
+             dirset="c3", modes=["vg", "cov", "covnc", "trans2"], mod=150, dpc=3),
     ]
 
 
@@ -416,6 +416,9 @@ def run(tier):
     vlib.build_lib()
     exe = vlib.build_harness("vario_run")
     cfgs = tiers(tier)
+    only = os.environ.get("C12_ONLY")       # development aid: run some TLC configurations only (no vacuity check)
+    if only:
+        cfgs = [c for c in cfgs if c["name"] in only.split(",")]
     nchunks = 6 if tier == "quick" else 12
     w = ck.work
     cpaths = [os.path.join(w, "cases_%d.ndjson" % k) for k in range(nchunks)]
@@ -461,7 +464,8 @@ def run(tier):
             except Exception as ex:       # noqa
                 errors.append(ex)
 
-    ths = [threading.Thread(target=guarded, args=(c,)) for c in cfgs]
+    cost = lambda c: -(c["nvar"] ** 2) * len(c["modes"]) * (9 ** c["maxn"] if c["nvar"] == 2 else 4 ** c["maxn"]) / c["mod"]
+    ths = [threading.Thread(target=guarded, args=(c,)) for c in sorted(cfgs, key=cost)]
     t0 = time.time()
     for t in ths:
         t.start()
@@ -553,7 +557,7 @@ def run(tier):
         need.append("cmp_general")
     need += ["mode:" + m for c in cfgs for m in c["modes"]]
     missing = [k for k in need if counters.get(k, 0) == 0]
-    if missing:
+    if missing and not only:
         raise Broken("vacuous categories: %s" % missing)
     if os.environ.get("C12_KEEP"):          # development aid: keep cases / observations
         import shutil
